@@ -548,6 +548,80 @@ def conn_decode_one(play: dict, kind: str, obf: bool, m: dict, vals: list):
     return obj, frame, conn.decode_message_data(wire)
 
 
+# ----------------------------------------------------------------------------------------
+# order independence: the codec of a class must not depend on which classes were used before it in the process
+
+def order_child_main():
+    """Child process: reads {"items": [[class, vals], ...]} from stdin, runs every item through impl_case IN THAT ORDER in
+    a fresh interpreter (no class has been touched before), prints [[index, [problem kinds]], ...]."""
+    import sys
+    common.use_impl()
+    play = L.load_pinned()['layout']
+    pm = L.msg_by_name(play)
+    items = json.load(sys.stdin)['items']
+    out = []
+    for i, (name, vals) in enumerate(items):
+        r = impl_case(play, pm[name], vals)
+        if r['problems']:
+            out.append([i, [[k, d if isinstance(d, (str, dict)) else str(d)] for k, d in r['problems']]])
+    print('ORDER-RESULT ' + json.dumps(out))
+
+
+def run_order_child(items: list):
+    import os
+    import subprocess
+    import sys
+    p = subprocess.run([sys.executable, '-c', 'import sys; sys.path.insert(0, %r); from checks import c01; c01.order_child_main()' % str(common.VERIF)],
+                       input=json.dumps({'items': items}), capture_output=True, text=True, timeout=900, cwd=str(common.VERIF),
+                       env=dict(os.environ, PYTHONHASHSEED='0'))
+    for ln in p.stdout.splitlines():
+        if ln.startswith('ORDER-RESULT '):
+            return json.loads(ln[len('ORDER-RESULT '):])
+    raise RuntimeError(f'order child failed: {p.stderr[-600:]}')
+
+
+def order_independence(run: Run, play: dict, orders: int):
+    """Every class once (full value, non-ASCII where possible) in a FRESH interpreter, in definition order, in reversed
+    order and in shuffled orders: process-wide state of the codec (caches keyed by class, looked up through the MRO,
+    memoised dispatch tables ...) must not make a class's bytes depend on the history."""
+    base = [[m['name'], L.gen_message(run.rng, play, m, 'nonascii' if any(has_string(play, f['type']) for f in m['fields']) else 'full')]
+            for m in play['messages']]
+    seqs = [('definition order', list(base)), ('reversed definition order', list(reversed(base)))]
+    for k in range(max(0, orders - 2)):
+        sh = list(base)
+        run.rng.shuffle(sh)
+        seqs.append((f'shuffled order {k + 1}', sh))
+    for label, seq in seqs:
+        try:
+            res = run_order_child(seq)
+        except Exception as e:
+            run.add_broken('order-independence child process', f'{type(e).__name__}: {e}')
+            return
+        run.case({'order': label, 'n': len(seq)}, kind='order-independence')
+        for idx, probs in res[:1]:
+            name, vals = seq[idx]
+
+            def fails(prefix):
+                try:
+                    r = run_order_child(prefix + [[name, vals]])
+                except Exception:
+                    return False
+                return any(i == len(prefix) for i, _ in r)
+            prefix = seq[:idx]
+            alone = fails([])
+            if not alone:
+                from vlib.common import shrink_list
+                prefix = shrink_list(prefix, fails, max_steps=24) if fails(prefix) else prefix
+            else:
+                prefix = []
+            what = probs[0][0]
+            run.add_finding(Finding(f'order-dependence:{name}' if not alone else f'{what}:{name}',
+                                    f'{name}: {what} in a fresh process after ' +
+                                    (f'{[p[0] for p in prefix]} were (de)serialised first ({label}); alone it is correct' if not alone else 'nothing else'),
+                                    {'kind': 'order', 'class': name, 'vals': vals, 'before': prefix},
+                                    observed=probs[0][1] if len(json.dumps(probs[0][1])) < 1500 else str(probs[0][1])[:1500]))
+
+
 def big_message(rng, play: dict, tbl: list, size: int):
     """An in-domain message of the table whose first mandatory string / blob field is inflated so that the
     serialised frame exceeds `size` bytes (-> (message, vals)); None when the table has no such class."""
@@ -800,6 +874,9 @@ def run(run: Run):
                                     '(other clients would read garbage beyond the first differing block)',
                                     {'kind': 'obf', 'key': keyh, 'data': datah}, observed=got.hex()[:300] if got else None, expected=wireh[:300]))
 
+    # --- order independence in fresh interpreters
+    order_independence(run, play, 2 if eff_tier == 'quick' else 5)
+
     # --- every receivable class through the real connection-level decoder
     connection_decode_sweep(run, play)
 
@@ -863,6 +940,13 @@ def replay(rep: dict) -> int:
         print('decode(encode) == data:', d == data)
         return 0 if (d == data and e == ref_obf_encode(key, data)) else 1
     pm = L.msg_by_name(play)
+    if kind == 'order':
+        seq = wit['before'] + [[wit['class'], wit['vals']]]
+        res = run_order_child(seq)
+        alone = run_order_child([[wit['class'], wit['vals']]])
+        print('in a fresh process, after', [p[0] for p in wit['before']], ':', wit['class'], '->', [p for i, p in res if i == len(seq) - 1] or 'correct')
+        print('in a fresh process, alone:', [p for i, p in alone] or 'correct')
+        return 1 if any(i == len(seq) - 1 for i, _ in res) else 0
     if kind == 'conn-decode':
         m = pm[wit['class']]
         try:
